@@ -121,6 +121,13 @@ def run(ctx):
             for f, s in (("%d %B %Y", "%d %s %d" % (dday, name, y)),):
                 cases.append({"s": s, "langs": [rec["name"]], "settings": {"RELATIVE_BASE": base, "TIMEZONE": "UTC"}, "fmts": [f], "today": today,
                               "expect": expect_str(D(y, m, dday)), "stratum": "localized-names"})
+            # the same with a clock time and a fraction that starts with zeros (the string goes through the locale's translation before the
+            # format is tried: every digit of every field must survive it)
+            if " " not in name and R.random() < (0.5 if tier == "quick" else 1.0):
+                us = R.choice([123, 45000, 99999, 1000, 7])
+                hh, mi, ss = R.randint(0, 23), R.randint(0, 59), R.randint(0, 59)
+                cases.append({"s": "%02d %s %d %02d:%02d:%02d.%06d" % (dday, name, y, hh, mi, ss, us), "langs": [rec["name"]], "settings": {"RELATIVE_BASE": base, "TIMEZONE": "UTC"},
+                              "fmts": ["%d %B %Y %H:%M:%S.%f"], "today": today, "expect": expect_str(D(y, m, dday, hh, mi, ss, us)), "stratum": "localized-names/fraction"})
     res = decide(ctx, cases, model_share=0.6 if tier == "quick" else 1.0)
     res["assumptions"] = ["'current' day/month and the missing year come from the system clock (read once at the start; the run must not cross midnight)",
                           "localized month names: the result must be the named month whichever parser produces it (the custom format on the translated string, or the absolute parser)",
